@@ -200,9 +200,22 @@ fn gen_inputs(r: &mut SplitMix64, methods: &[String], tier: u32) -> Inputs {
     };
     // a few values with all 15-17 significant digits (the text <-> f64 round trip through the saved file)
     let (lat_v, lon_v) = if r.chance(6) { (r.f64_in(-55.0, 55.0, 15), r.f64_in(-180.0, 180.0, 14)) } else { (lat_v, lon_v) };
-    let lat_s = respell(r, lat_v);
-    let lon_s = respell(r, lon_v);
-    let gmt_s = respell(r, gmt_v);
+    let mut lat_s = respell(r, lat_v);
+    let mut lon_s = respell(r, lon_v);
+    let mut gmt_s = respell(r, gmt_v);
+    // rare exotic-but-valid numerals: values that only round to a bound, exponents, tiny magnitudes
+    if r.chance(3) {
+        match r.range(0, 7) {
+            0 => lon_s = "179.99999999999999".into(),      // nearest f64 is 180
+            1 => lat_s = "89.999999999999999".into(),      // nearest f64 is 90
+            2 => lat_s = "9e1".into(),
+            3 => gmt_s = "1.2e1".into(),
+            4 => gmt_s = "-11.9999999999999999".into(),    // nearest f64 is -12
+            5 => lat_s = "1e-300".into(),
+            6 => lon_s = "-1e-320".into(),                  // subnormal
+            _ => gmt_s = "0.25e1".into(),
+        }
+    }
     Inputs { method, lat: lat_s, lon: lon_s, elev, gmt: gmt_s, start, end }
 }
 
